@@ -80,6 +80,47 @@ ParseSem(s, m) ==
      ELSE ParseNumber(rest, neg, m)
 
 -----------------------------------------------------------------------------
+(* C05, the rune-level scanner behind fmt.Scan (Decimal.Scan): a small machine over an input stream.       *)
+(* One step consumes: leading white space; an optional sign; then either the three letters of inf / nan     *)
+(* (no more: "Infinity" leaves "inity" in the stream) or the longest run of the characters a numeral can   *)
+(* contain, which is then read as a number with ParseNumber.  Position p is the next unread byte.           *)
+IsSp(b) == b \in {32, 9, 10, 13}
+TokCh(b) == IsDig(b) \/ b \in {46, 69, 101, 45, 95, 43}
+\* first position >= p whose byte does not satisfy Test (Len(s) + 1 when there is none)
+SkipWhile(s, p, Test(_)) ==
+  IF p > Len(s) THEN p
+  ELSE LET j == SelectInSeq(SubSeq(s, p, Len(s)), LAMBDA b : ~Test(b)) IN IF j = 0 THEN Len(s) + 1 ELSE p + j - 1
+SRes(err, v, ex, p) == [err |-> err, val |-> v, ex |-> ex, p |-> p]
+ScanOne(s, p, m) ==
+  LET p1 == SkipWhile(s, p, IsSp) IN
+  IF p1 > Len(s) THEN SRes("eof", NaNV, Val(NaNV), p1) ELSE
+  LET signed == s[p1] \in {43, 45}
+      neg == s[p1] = 45
+      p2 == IF signed THEN p1 + 1 ELSE p1
+      \* three letters, case-insensitive: a, b, c are the lower-case codes
+      Word(b2, b3, v, tag) ==
+        IF p2 + 1 > Len(s) THEN SRes("eof", NaNV, Val(NaNV), p2 + 1)
+        ELSE IF Lower(s[p2 + 1]) # b2 THEN SRes("syntax", NaNV, Val(NaNV), p2 + 2)
+        ELSE IF p2 + 2 > Len(s) THEN SRes("eof", NaNV, Val(NaNV), p2 + 2)
+        ELSE IF Lower(s[p2 + 2]) # b3 THEN SRes("syntax", NaNV, Val(NaNV), p2 + 3)
+        ELSE SRes(tag, v, Val(v), p2 + 3)
+  IN IF p2 > Len(s) THEN SRes("eof", NaNV, Val(NaNV), p2)
+     ELSE IF Lower(s[p2]) = 105 THEN Word(110, 102, InfV(neg), "none")
+     ELSE IF Lower(s[p2]) = 110 THEN Word(97, 110, NaNV, IF signed THEN "nan-signed" ELSE "none")
+     ELSE LET p3 == SkipWhile(s, p2, TokCh)
+              ps == ParseNumber(SubSeq(s, p2, p3 - 1), neg, m)
+          IN SRes(ps.err, ps.val, ps.ex, p3)
+
+\* fmt.Fscan(stream, &d1, .., &dk): values are stored one after the other until the first error; the call reports how
+\* many were stored.  Result: the per-value outcomes up to and including the first failure, and the final position.
+RECURSIVE ScanMany(_, _, _, _)
+ScanMany(s, p, k, m) ==
+  IF k = 0 THEN [outs |-> << >>, p |-> p]
+  ELSE LET o == ScanOne(s, p, m) IN
+       IF o.err \in {"none", "nan-signed"} THEN LET rest == ScanMany(s, o.p, k - 1, m) IN [outs |-> <<o>> \o rest.outs, p |-> rest.p]
+       ELSE [outs |-> <<o>>, p |-> o.p]
+
+-----------------------------------------------------------------------------
 (* C06: default text *)
 
 \* decimal digits of a small natural, at least two of them (exponent field)
